@@ -79,6 +79,8 @@ def classify(rc, out):
         return ("tsan:" + t.group(1).strip().replace(" ", "-"), None, t.group(0))
     if rc == 78:
         return ("terminate", None, "std::terminate called")
+    if rc == 79:
+        return ("hang", None, "run exceeded the per-run watchdog")
     if rc == -9 or rc == "timeout":
         return ("hang", None, "timeout")
     if rc < 0:
